@@ -107,6 +107,20 @@ func (p *Parser) getAlignmentInfo() alignmentInfo {
 	return ret
 }
 
+// runeOffset returns the byte offset of the n-th character of s (or the
+// length of s when it has fewer characters).
+func runeOffset(s string, n int) int {
+	for i := range s {
+		if n == 0 {
+			return i
+		}
+
+		n--
+	}
+
+	return len(s)
+}
+
 func wrapText(s string, l int, prefix string) string {
 	var ret string
 
@@ -122,14 +136,14 @@ func wrapText(s string, l int, prefix string) string {
 
 		line = strings.TrimSpace(line)
 
-		for len(line) > l {
+		for utf8.RuneCountInString(line) > l {
 			// Try to split on space
 			suffix := ""
 
-			pos := strings.LastIndex(line[:l], " ")
+			pos := strings.LastIndex(line[:runeOffset(line, l)], " ")
 
 			if pos < 0 {
-				pos = l - 1
+				pos = runeOffset(line, l-1)
 				suffix = "-\n"
 			}
 
@@ -210,7 +224,7 @@ func (p *Parser) writeHelpOption(writer *bufio.Writer, option *Option, info alig
 		}
 	}
 
-	written := line.Len()
+	written := utf8.RuneCount(line.Bytes())
 	line.WriteTo(writer)
 
 	if option.Description != "" {
@@ -450,7 +464,7 @@ func (p *Parser) WriteHelp(writer io.Writer) {
 					wr.WriteString(argPrefix)
 
 					// Space between "arg:" and the description start
-					descPadding := strings.Repeat(" ", descStart-len(argPrefix))
+					descPadding := strings.Repeat(" ", descStart-utf8.RuneCountInString(argPrefix))
 					// How much space the description gets before wrapping
 					descWidth := aligninfo.terminalColumns - 1 - descStart
 					// Whitespace to which we can indent new description lines
